@@ -164,6 +164,7 @@ pub struct LineCfg {
     pub null_pct: usize,
     pub bad_n_pct: usize,
     pub n_range: i64,
+    /// number of distinct key values (the first five are KEYS, further ones are generated names)
     pub keys: usize,
 }
 
@@ -171,11 +172,20 @@ pub fn gen_line_cfg(rng: &mut Rng) -> LineCfg {
     LineCfg { null_pct: *rng.pick(&[0, 10, 25, 50]), bad_n_pct: *rng.pick(&[0, 0, 10]), n_range: *rng.pick(&[3, 10, 1000, 1_000_000]), keys: rng.range(1, 5) as usize }
 }
 
+/// i-th key value: lower-case letters only (the table patterns accept `[a-z ]+`)
+pub fn key_name(i: usize) -> String {
+    if i < KEYS.len() {
+        return KEYS[i].to_owned();
+    }
+    let j = i - KEYS.len();
+    format!("k{}{}", (b'a' + (j / 26 % 26) as u8) as char, (b'a' + (j % 26) as u8) as char)
+}
+
 pub fn gen_line_spec(rng: &mut Rng, cfg: &TableCfg, lc: &LineCfg) -> LineSpec {
     let k = if rng.below(100) < lc.null_pct {
         None
     } else {
-        let mut k = KEYS[rng.below(lc.keys.min(KEYS.len()))].to_owned();
+        let mut k = key_name(rng.below(lc.keys.max(1)));
         if cfg.kmod == KMod::Trim && rng.chance(1, 2) {
             k = format!("{}{}{}", if rng.chance(1, 2) { " " } else { "" }, k, if rng.chance(1, 2) { "  " } else { "" });
         }
@@ -431,7 +441,7 @@ pub fn noise_possible(cfg: &TableCfg) -> bool {
 }
 
 pub fn gen_joined_line(rng: &mut Rng, keys: usize, null_pct: usize) -> String {
-    let k = if rng.below(100) < null_pct { String::new() } else { format!("k={}", KEYS[rng.below(keys.min(KEYS.len()))]) };
+    let k = if rng.below(100) < null_pct { String::new() } else { format!("k={}", key_name(rng.below(keys.max(1)))) };
     let m = if rng.below(100) < null_pct { String::new() } else { format!("m={}", rng.range(-3, 3)) };
     let w = if rng.below(100) < null_pct { String::new() } else { format!("w={}", *rng.pick(&["p", "q", "rr"])) };
     format!("J {};{};{}", k, m, w)
@@ -523,6 +533,21 @@ pub fn gen_filter(rng: &mut Rng, cfg: &TableCfg, prefix: &str) -> String {
     rng.pick(&pool).clone()
 }
 
+/// WHERE over columns of the joined table `u` (rejects some partners of a line and accepts others)
+pub fn gen_filter_joined(rng: &mut Rng) -> String {
+    let c = rng.range(0, 2);
+    let pool = vec![
+        format!("u.m >= {}", c),
+        format!("u.m < {}", c + 1),
+        "u.m IS NOT NULL".to_owned(),
+        format!("w = '{}'", rng.pick(&["p", "q", "rr"])),
+        format!("w != '{}'", rng.pick(&["p", "q", "rr"])),
+        format!("u.m > 0 OR w = '{}'", rng.pick(&["p", "q"])),
+        format!("t.n <= u.m + {}", c),
+    ];
+    rng.pick(&pool).clone()
+}
+
 pub fn gen_join(rng: &mut Rng) -> String {
     let kind = if rng.chance(1, 2) { "INNER" } else { "OUTER" };
     let on = match rng.below(3) {
@@ -605,6 +630,19 @@ pub fn agg_pool(cfg: &TableCfg, order_insensitive: bool, p: &str) -> Vec<String>
         pool.push(format!("MIN({}d)", p));
         pool.push(format!("MAX({}d)", p));
         pool.push(format!("COUNT(DISTINCT {}d)", p));
+    }
+    // arithmetic wrapped around numeric aggregates ("an arithmetic wrapper around an aggregate applied to that aggregate's value")
+    for (agg, wrap) in [
+        ("COUNT(*)", "+ 1"),
+        ("COUNT(DISTINCT {}n)", "* 2"),
+        ("PERCENTILE({}n, 0.5)", "* 2"),
+        ("PERCENTILE({}r, 0.9)", "+ 1.0"),
+        ("AVG({}r)", "* 2.0"),
+        ("MIN({}n)", "- 1"),
+        ("VARIANCE({}n)", "+ 1.0"),
+        ("SUM({}r)", "* 2.0"),
+    ] {
+        pool.push(format!("{} {}", agg.replace("{}", p), wrap));
     }
     if !order_insensitive {
         pool.push(format!("ARRAY_AGG({}n)", p));
